@@ -177,3 +177,11 @@ Theorem C12_range_core_roundtrip : forall lr fr bs, (lr <= 16)%N -> length fr = 
         uval s' = (fst (abvs t) * 2 ^ P + p)%N /\ total s' = (snd (abvs t) + P)%N.
 Proof. exact range_core_roundtrip. Qed.
 Print Assumptions C12_range_core_roundtrip.
+
+(* how much the encoder can write: at most two 28-bit digits per byte and fewer than 4677 bits of header and final word per
+   chunk (so the codec never expands a block by more than 7 + a small constant per chunk) *)
+From KV Require Import Proofs.RangeSizeProofs.
+Theorem C12_range_output_bound : forall f block allops, bytes_ok block -> enc_chunks f block = Some allops ->
+  (Wd allops <= 4677 * N.of_nat f + 56 * N.of_nat (length block))%N.
+Proof. exact enc_chunks_width. Qed.
+Print Assumptions C12_range_output_bound.
